@@ -174,6 +174,49 @@ def native_long_inputs():
                         "rejected although well-formed" if got is None else "accepted although malformed" if exp is None else
                         "rows differ from row %r on: got %r expected %r" % (where, got[where:where + 1], exp[where:where + 1])),
                         args=dict(widths=list(widths), delimiter=dname, case=what)))
+        # non-ASCII records, every delimiter, read from a UTF-8 / UTF-16 file by path and from a stream that offers
+        # nothing but read() (a pipe, a decoder): the same rows
+        class ReadOnly:
+            def __init__(self, text):
+                self._inner = io.StringIO(text, newline="")
+
+            def read(self, count=-1):
+                return self._inner.read(count)
+
+        for dname, delim in DELIMS.items():
+            for sep in (["\r", "\n", "\r\n"] if delim == "any" else [""] if delim is None else [delim]):
+                text = sep.join(["\u00e91", "\u00fc2", "\u20ac3", "ab"]) + sep
+                exp = spec_parse(text, [2], delim)
+                for enc in ("utf-8", "utf-16", "cp1252"):
+                    n += 1
+                    path = os.path.join(d, "nonascii.txt")
+                    with open(path, "w", newline="", encoding=enc) as f:
+                        f.write(text)
+                    for how, source in (("path", lambda: path), ("read()-only stream", lambda: ReadOnly(text))):
+                        try:
+                            got = list(rowio.fixed_rows(source(), enc, [("f", 2)], delim))
+                        except errors.DataFormatError as e:
+                            got = "DataFormatError: %s" % e
+                        except Exception as e:  # noqa
+                            got = "%s: %s" % (type(e).__name__, e)
+                        if got != exp:
+                            failures.append(dict(key="fixed-rows-long", what="non-ASCII records %r, delimiter %s, encoding %s, %s: %r expected %r" % (
+                                text, dname, enc, how, got, exp), args=dict(delimiter=dname, encoding=enc, how=how)))
+        # malformed fixed data through the validator: a data format error in each of the three error modes
+        from cutplace import interface, validio
+        for bad in ("ab\ncd\ne", "ab\ncdX", "ab\rcd\n", "a", "ab\n\ncd\n"):
+            for mode in ("raise", "yield", "continue"):
+                n += 1
+                cid = interface.create_cid_from_string("d,format,fixed\nd,line delimiter,lf\nf,x,,,2\n")
+                try:
+                    produced = list(validio.rows(cid, io.StringIO(bad, newline=""), on_error=mode))
+                    failures.append(dict(key="fixed-rows-modes", what="malformed fixed data %r in mode %s: no data format error (%r)" % (bad, mode, produced),
+                                         args=dict(text=bad, mode=mode)))
+                except errors.DataFormatError:
+                    pass
+                except Exception as e:  # noqa
+                    failures.append(dict(key="fixed-rows-modes", what="malformed fixed data %r in mode %s raised %s: %s" % (bad, mode, type(e).__name__, e),
+                                         args=dict(text=bad, mode=mode)))
     finally:
         shutil.rmtree(d, ignore_errors=True)
     return dict(count=n, failures=failures, samples=[])
